@@ -188,6 +188,12 @@ def w_misc(arg):
             for ca in (0, 5, 7):
                 do("ic", (r, F.df11(aa, ca, r)))
         acc.out.add((cfg, "ic", r))
+    # TC28 identity code under every subtype (except 2: ACAS RA) and emergency state
+    for code in (0, 0x40, I.encode(7, 5, 0, 0), I.encode(7, 6, 0, 0), I.encode(7, 7, 0, 0), 8191, I.encode(1, 2, 3, 4, 1)):
+        for st in range(8):
+            for state in range(8):
+                me = F.me(28, [(6, 3, st), (9, 3, state), (12, 13, code)])
+                do("id", ("TC28", code, F.es(me, 0x4840D6, 5, 17)))
     # DF guards, both lengths, three payloads
     names = ["surv.fs", "surv.dr", "surv.um", "surv.altitude", "surv.identity", "allcall.icao",
              "allcall.interrogator", "allcall.capability", "common.idcode", "common.altcode"]
